@@ -126,7 +126,7 @@ def gen_f_driver(cases, nvals, with_class):
                             Ln = 12 if vi % 2 == 0 else max(1, len(raw))
                     rc_ = [(3, 2), (1, 4), (2, 2), (4, 1)][vi % 4]
                     blk.append("    " + ffmt(fr["decl"], n=p["name"], L=Ln, r=rc_[0], c=rc_[1]))
-                    sets.append("    " + ffmt(fr["set"], n=p["name"], v=fv, r=rc_[0], c=rc_[1], sz=[4, 0, 1, 3][vi % 4], **px(p)))
+                    sets.append("    " + ffmt(fr["set"], n=p["name"], v=fv, L=Ln, r=rc_[0], c=rc_[1], sz=[4, 0, 1, 3][vi % 4], **px(p)))
                 sz = [4, 0, 1, 3][vi % 4]
                 rc = [(3, 2), (1, 4), (2, 2), (4, 1)][vi % 4]
                 fx, rr = fres(c, tt)
@@ -167,8 +167,9 @@ def gen_f_driver(cases, nvals, with_class):
     if with_class == "derived":
         body.append(DERIVED_FDRIVER)
     L += body
+    L.append("contains")
+    L.append(STRV_FCONTAINS)
     if with_class:
-        L.append("contains")
         L.append(CLS_FCONTAINS)
     L.append("end program driver")
     return "\n".join(L) + "\n", calls
@@ -285,6 +286,21 @@ DERIVED_FDRIVER = ("  block\n    type(derived) :: e\n    integer(C_INT) :: rv, g
     _fcall("call vt_obj(e%get_instance()); ", "", "dtor", "ns1::Derived::~Derived()", "call e%dtor()") +
     "  end block\n")
 
+STRV_FCONTAINS = """
+  subroutine vt_strv(a)
+    ! an array of strings as the library is to see it: every element without its trailing blanks, joined with '|'
+    character(len=*), intent(in) :: a(:)
+    character(len=:), allocatable :: j
+    integer :: i
+    j = ""
+    do i = 1, size(a)
+      if (i > 1) j = j // "|"
+      j = j // trim(a(i))
+    end do
+    call vt_str(j, len(j, kind=C_LONG))
+  end subroutine vt_strv
+"""
+
 CLS_FCONTAINS = """
   subroutine mget_i(m, o, v)
     character(len=*), intent(in) :: m
@@ -315,6 +331,8 @@ CLS_FCONTAINS = """
 
 def f_sig(c, tt, nsup):
     s = cgen.tla_sig(c, tt, nsup, "f")
+    if c["result"] != "T":
+        s["resback"] = K.FRESULTS.get(c["result"], {}).get("back", "id")
     for p, d in zip(c["params"], s["params"]):
         fr, r = frow(p, tt)
         d["back"] = fr.get("back", "id")
